@@ -2,10 +2,18 @@
   C02 — Recorded handler progress governs invocation. Property theorems only.
   `cycle` is a function of the persisted records `P` alone: the operator's memory does not enter it,
   so restarts and foreign events (which leave `P` alone) are covered by quantifying over `P`.
+
+  Since /repo f7d6401 the pass does not take over every record it finds: the records of selected handlers that have
+  a reason of their own (`bound`) and carry ANOTHER cause's purpose — the progress of a namesake: one function & id
+  registered for several causes — are left out. `cycle cfg P` is the pass over the records it takes over; the whole
+  pass is `cycleB cfg bound P = cycle cfg (taken cfg bound P)` (`pass_is_cycle_over_taken`). The theorems about
+  `cycle` below therefore speak about the records TAKEN OVER; their readings for the whole pass are in the last
+  section ("One id, several registrations"): `no_rerun_own`, `namesake_not_inherited`, `retry_kwarg_taken`, …
 -/
 import Kopf.Lemmas.C02_Cycle
 import Kopf.Lemmas.C02_Sub
 import Kopf.Lemmas.C02_Deselect
+import Kopf.Lemmas.C02_Namesake
 namespace Kopf.C02
 
 /-- A handler whose success or permanent failure is recorded is never invoked again. -/
@@ -917,5 +925,336 @@ example :
     let P : Store := fun i => if i = "d0/a" then some (recOf true 1) else if i = "d0/b" then some (recOf false 2) else none
     (subPass cfg P 5 5 (fun _ _ => { final := true, delay := none, error := false, subrefs := [] })).invoked
       = [("d0/b", 2)] := by decide
+
+/-! ### One id, several registrations (/repo f7d6401): the whole pass `cycleB` -/
+
+/-- THE WHOLE PASS IS THE PASS OVER THE RECORDS TAKEN OVER. `cycleB` leaves the namesakes out of the loaded state
+    (the mechanism of the code); that is the same as running `cycle` on an object from which those records are
+    absent: same invocations, same closing decision, same delays, and the same records afterwards — also at the
+    namesakes' ids, where the fresh state is written over whatever was there. Every theorem about `cycle` above is
+    thereby a theorem about the code's pass, read over `taken cfg bound P`. -/
+theorem pass_is_cycle_over_taken (cfg : Cfg) (bound : Id → Bool) (P : Store) (now now1 : Tick)
+    (exec : Id → Nat → Outcome) :
+    cycleB cfg bound P now now1 exec = cycle cfg (taken cfg bound P) now now1 exec :=
+  cycleB_eq_cycle_taken cfg bound P now now1 exec
+
+/-- What is taken over and what is not: a record is left out exactly when the cause has a handler reason, the id is a
+    selected handler with a reason of its own, and the record carries another cause's purpose. -/
+theorem taken_iff (cfg : Cfg) (bound : Id → Bool) (P : Store) (i : Id) :
+    (taken cfg bound P i = P i ∨ taken cfg bound P i = none) ∧
+    (taken cfg bound P i ≠ P i ↔
+      handlerReasons.contains cfg.reason = true ∧ i ∈ cfg.owned ∧ i ∈ cfg.selected ∧ bound i = true ∧
+        ∃ r, P i = some r ∧ r.purpose ≠ none ∧ r.purpose ≠ some cfg.reason) := by
+  cases hl : leftOut cfg bound P i
+  · refine ⟨Or.inl (taken_of_not_leftOut hl), ?_⟩
+    constructor
+    · intro h; exact absurd (taken_of_not_leftOut hl) h
+    · rintro ⟨h1, h2, h3, h4, r, hP, hn, hr⟩
+      exfalso
+      have : leftOut cfg bound P i = true :=
+        leftOut_iff.2 ⟨h1, h2, h3, h4, r, hP, by simp [Rec.foreignTo, hn, hr]⟩
+      rw [hl] at this; cases this
+  · refine ⟨Or.inr (taken_of_leftOut hl), ?_⟩
+    obtain ⟨h1, h2, h3, h4, r, hP, hf⟩ := leftOut_iff.1 hl
+    constructor
+    · intro _
+      refine ⟨h1, h2, h3, h4, r, hP, ?_⟩
+      simpa [Rec.foreignTo] using hf
+    · intro _
+      rw [taken_of_leftOut hl, hP]
+      exact fun h => by cases h
+
+/-- (the property, first sentence, for the whole pass) A handler whose success or permanent failure is recorded as ITS
+    OWN — the record carries no purpose or this cause's, or the handler has no reason of its own (resuming and field
+    handlers: their progress is carried over to the superseding cause) — is never invoked again. -/
+theorem no_rerun_own (cfg : Cfg) (bound : Id → Bool) (P : Store) (now now1 : Tick) (exec : Id → Nat → Outcome)
+    (hsub : ∀ i ∈ cfg.selected, i ∈ cfg.owned)
+    (i : Id) (n : Nat) (r : Rec) (hP : P i = some r) (hfin : r.finished = true)
+    (hown : bound i = false ∨ r.purpose = none ∨ r.purpose = some cfg.reason) :
+    (i, n) ∉ (cycleB cfg bound P now now1 exec).invoked := by
+  rw [cycleB_eq_cycle_taken]
+  exact no_rerun cfg _ now now1 exec hsub i n r (taken_own hP hown) hfin
+
+/-- A handler still due is invoked with `retry` = the attempts on the record TAKEN OVER: its own recorded attempts,
+    and 0 for a handler that starts from scratch (nothing recorded, or only its namesake's progress). -/
+theorem retry_kwarg_taken (cfg : Cfg) (bound : Id → Bool) (P : Store) (now now1 : Tick) (exec : Id → Nat → Outcome)
+    (hsub : ∀ i ∈ cfg.selected, i ∈ cfg.owned)
+    (i : Id) (n : Nat) (h : (i, n) ∈ (cycleB cfg bound P now now1 exec).invoked) :
+    n = (match taken cfg bound P i with | some r => r.retries | none => 0) := by
+  rw [cycleB_eq_cycle_taken] at h
+  exact retry_kwarg cfg _ now now1 exec hsub i n h
+
+/-- Only selected handlers are invoked, never one whose OWN record sleeps. -/
+theorem invoked_selected_awake_taken (cfg : Cfg) (bound : Id → Bool) (P : Store) (now now1 : Tick)
+    (exec : Id → Nat → Outcome) (hsub : ∀ i ∈ cfg.selected, i ∈ cfg.owned)
+    (i : Id) (n : Nat) (h : (i, n) ∈ (cycleB cfg bound P now now1 exec).invoked) :
+    i ∈ cfg.selected ∧ ∀ r d, taken cfg bound P i = some r → r.delayed = some d → d ≤ now := by
+  rw [cycleB_eq_cycle_taken] at h
+  exact invoked_selected_awake cfg _ now now1 exec hsub i n h
+
+/-- THE REPAIR OF C03-N3 (f7d6401), for every lifecycle: a handler declared for the current reason does NOT inherit
+    its namesake's progress. Whatever record of another cause's purpose the object carries under its id — finished,
+    failed for good, sleeping for an hour, with any number of attempts — if the pass invokes it, it does so with
+    `retry = 0`; and its namesake's outcome neither counts as its own (`closed_iff_all_finished_taken`: the cycle
+    cannot close on it) nor survives (the fresh record is written over it, `namesake_record_overwritten`). -/
+theorem namesake_starts_from_scratch (cfg : Cfg) (bound : Id → Bool) (P : Store) (now now1 : Tick)
+    (exec : Id → Nat → Outcome) (hsub : ∀ i ∈ cfg.selected, i ∈ cfg.owned)
+    (hr : handlerReasons.contains cfg.reason = true)
+    (i : Id) (r : Rec) (hs : i ∈ cfg.selected) (hb : bound i = true) (hP : P i = some r)
+    (hpn : r.purpose ≠ none) (hpr : r.purpose ≠ some cfg.reason) :
+    taken cfg bound P i = none ∧
+    ∀ n, (i, n) ∈ (cycleB cfg bound P now now1 exec).invoked → n = 0 := by
+  have ht : taken cfg bound P i = none :=
+    taken_namesake hr (hsub i hs) hs hb hP (by simp [Rec.foreignTo, hpn, hpr])
+  refine ⟨ht, ?_⟩
+  intro n h
+  have := retry_kwarg_taken cfg bound P now now1 exec hsub i n h
+  rw [ht] at this
+  exact this
+
+/-- … and for the all-at-once lifecycle it IS invoked in this very pass (within its limits): the deletion handler
+    that shares its id with a finished update handler is called. -/
+theorem namesake_not_inherited (cfg : Cfg) (bound : Id → Bool) (P : Store) (now now1 : Tick)
+    (exec : Id → Nat → Outcome) (hsub : ∀ i ∈ cfg.selected, i ∈ cfg.owned)
+    (hr : handlerReasons.contains cfg.reason = true) (hlc : cfg.lifecycle = .allAtOnce)
+    (i : Id) (r : Rec) (hs : i ∈ cfg.selected) (hb : bound i = true) (hP : P i = some r)
+    (hpn : r.purpose ≠ none) (hpr : r.purpose ≠ some cfg.reason)
+    (hlim : precheckFails (cfg.limits i) (fresh now cfg.reason) now = false) :
+    (i, 0) ∈ (cycleB cfg bound P now now1 exec).invoked := by
+  have ht : taken cfg bound P i = none :=
+    taken_namesake hr (hsub i hs) hs hb hP (by simp [Rec.foreignTo, hpn, hpr])
+  rw [cycleB_eq_cycle_taken]
+  have hsr : ∀ ex, startRec cfg (taken cfg bound P) now ex i = fresh now cfg.reason := by
+    intro ex; unfold startRec; rw [ht]
+  have := due_invoked_all_at_once cfg (taken cfg bound P) now now1 exec hr hlc i hs (hsub i hs)
+    (by rw [hsr]; simp [fresh, Rec.awakened, Rec.finished, Rec.sleeping]) (by rw [hsr]; exact hlim)
+  rw [ht] at this
+  exact this
+
+/-- "Closed exactly when every selected handler has finished — not before", for the whole pass: the finished states
+    are those of the pass over the records taken over; a namesake's finished record is not among them. -/
+theorem closed_iff_all_finished_taken (cfg : Cfg) (bound : Id → Bool) (P : Store) (now now1 : Tick)
+    (exec : Id → Nat → Outcome) (hsub : ∀ i ∈ cfg.selected, i ∈ cfg.owned)
+    (hr : handlerReasons.contains cfg.reason = true) (hne : cfg.selected.isEmpty = false) :
+    (cycleB cfg bound P now now1 exec).closed = true ↔
+      ∀ i ∈ cfg.selected, ∃ h, postState cfg (taken cfg bound P) now now1 exec i = some h ∧ h.r.finished = true := by
+  rw [cycleB_eq_cycle_taken]
+  exact closed_iff_all_finished cfg _ now now1 exec hsub hr hne
+
+/-- When the whole pass closes the cycle (or ends it because nothing is selected), no progress record of any owned
+    handler remains — the namesakes' included. -/
+theorem closed_purges_whole (cfg : Cfg) (bound : Id → Bool) (P : Store) (now now1 : Tick) (exec : Id → Nat → Outcome)
+    (hr : handlerReasons.contains cfg.reason = true)
+    (hc : (cycleB cfg bound P now now1 exec).closed = true) :
+    ∀ i ∈ cfg.owned, (cycleB cfg bound P now now1 exec).P' i = none := by
+  rw [cycleB_eq_cycle_taken] at hc ⊢
+  cases he : cfg.selected.isEmpty
+  · exact closed_purges cfg _ now now1 exec hr he hc
+  · exact (closed_purges_skip cfg _ now now1 exec hr he).2
+
+/-- While the cycle stays open, the namesake's record is overwritten in this very pass by the record of the handler
+    that starts from scratch: purpose = this cause. -/
+theorem namesake_record_overwritten (cfg : Cfg) (bound : Id → Bool) (P : Store) (now now1 : Tick)
+    (exec : Id → Nat → Outcome) (hsub : ∀ i ∈ cfg.selected, i ∈ cfg.owned)
+    (hr : handlerReasons.contains cfg.reason = true)
+    (i : Id) (r : Rec) (hs : i ∈ cfg.selected) (hb : bound i = true) (hP : P i = some r)
+    (hpn : r.purpose ≠ none) (hpr : r.purpose ≠ some cfg.reason)
+    (hopen : (cycleB cfg bound P now now1 exec).closed = false) :
+    ∃ r', (cycleB cfg bound P now now1 exec).P' i = some r' ∧ r'.purpose = some cfg.reason ∧ r'.started = now := by
+  have ht : taken cfg bound P i = none :=
+    taken_namesake hr (hsub i hs) hs hb hP (by simp [Rec.foreignTo, hpn, hpr])
+  have hne : cfg.selected.isEmpty = false := by
+    cases hl : cfg.selected with
+    | nil => rw [hl] at hs; cases hs
+    | cons _ _ => rfl
+  rw [cycleB_eq_cycle_taken] at hopen ⊢
+  rw [cycle_main cfg _ now now1 exec hr hne] at hopen ⊢
+  simp only at hopen
+  simp only [hopen, Bool.false_eq_true, if_false]
+  obtain ⟨h0, hpre, _, hrec⟩ := preState_selected (P := taken cfg bound P) (now := now) hs (hsub i hs)
+  have hfr : h0.r = fresh now cfg.reason := by rw [hrec]; unfold startRec; rw [ht]
+  have hd0 : h0.dirty = true := by
+    have := hpre
+    unfold preState at this
+    by_cases hx : hasExtras (withHandlers (fromStorage (taken cfg bound P) cfg.owned) cfg.selected cfg.reason now)
+        (known cfg) cfg.reason = true
+    · rw [if_pos hx] at this
+      simp [repurpose, withHandlers, fromStorage, hs, hsub i hs, ht] at this
+      rw [← this]
+    · rw [if_neg hx] at this
+      simp [withHandlers, fromStorage, hs, hsub i hs, ht] at this
+      rw [← this]
+  unfold postState store
+  rw [execOnce_st]
+  by_cases hpl : i ∈ planOf cfg (preState cfg (taken cfg bound P) now) now
+  · simp only [hpl, if_true, hpre]
+    exact ⟨_, rfl, by simp [withOutcome, hfr, fresh], by simp [withOutcome, hfr, fresh]⟩
+  · simp only [hpl, if_false, hpre, hd0, if_true]
+    exact ⟨_, rfl, by rw [hfr]; rfl, by rw [hfr]; rfl⟩
+
+/-- A final outcome of an invoked handler is recorded whenever the cycle stays open (whole pass). -/
+theorem final_outcome_recorded_whole (cfg : Cfg) (bound : Id → Bool) (P : Store) (now now1 : Tick)
+    (exec : Id → Nat → Outcome) (i : Id) (n : Nat)
+    (hinv : (i, n) ∈ (cycleB cfg bound P now now1 exec).invoked)
+    (hfin : (exec i n).final = true) (hc : (cycleB cfg bound P now now1 exec).closed = false) :
+    ∃ r', (cycleB cfg bound P now now1 exec).P' i = some r' ∧ r'.finished = true := by
+  rw [cycleB_eq_cycle_taken] at hinv hc ⊢
+  exact final_outcome_recorded cfg _ now now1 exec i n hinv hfin hc
+
+/-- The passes of the whole pass chained, as `invokedSeq` -/
+def invokedSeqB (cfg : Cfg) (bound : Id → Bool) : Store → List Step → List (List (Id × Nat))
+  | _, [] => []
+  | P, s :: rest =>
+      let c := cycleB cfg bound P s.now s.now1 s.exec
+      c.invoked :: (if c.closed then [] else invokedSeqB cfg bound c.P' rest)
+
+/-- Within one handling cycle (no cause supersedes it: `NoExtras`) nothing is ever left out: the whole pass IS
+    `cycle`, pass after pass. -/
+theorem invokedSeqB_eq (cfg : Cfg) (bound : Id → Bool) (hsub : ∀ i ∈ cfg.selected, i ∈ cfg.owned)
+    (steps : List Step) : ∀ (P : Store), NoExtras cfg P → invokedSeqB cfg bound P steps = invokedSeq cfg P steps := by
+  induction steps with
+  | nil => intro P _; rfl
+  | cons s rest ih =>
+    intro P hne
+    simp only [invokedSeqB, invokedSeq]
+    rw [cycleB_of_noExtras cfg bound P s.now s.now1 s.exec hne]
+    rw [ih _ (noExtras_preserved cfg P s.now s.now1 s.exec hsub hne)]
+
+/-- Across any number of passes of the whole pass, restarts and intervening events, a handler recorded as finished is
+    not invoked again while the handling cycle is open. -/
+theorem finished_never_invoked_whole (cfg : Cfg) (bound : Id → Bool) (hsub : ∀ i ∈ cfg.selected, i ∈ cfg.owned)
+    (steps : List Step) (P : Store) (hne : NoExtras cfg P)
+    (i : Id) (r : Rec) (ho : i ∈ cfg.owned) (hP : P i = some r) (hfin : r.finished = true) :
+    ∀ l ∈ invokedSeqB cfg bound P steps, ∀ n, (i, n) ∉ l := by
+  rw [invokedSeqB_eq cfg bound hsub steps P hne]
+  exact finished_never_invoked cfg hsub steps P hne i r ho hP hfin
+
+/-- Hence at most one final outcome per handler per handling cycle — also right after a superseding cause: the FIRST
+    pass may be the one that leaves namesakes out (no `NoExtras` on `P`); whatever it records is of this cause's
+    purpose, and from then on nothing is left out. -/
+theorem once_per_cycle_whole (cfg : Cfg) (bound : Id → Bool) (hsub : ∀ i ∈ cfg.selected, i ∈ cfg.owned)
+    (P : Store) (hne : NoExtras cfg (taken cfg bound P)) (s : Step) (rest : List Step)
+    (i : Id) (n : Nat) (hinv : (i, n) ∈ (cycleB cfg bound P s.now s.now1 s.exec).invoked)
+    (hfin : (s.exec i n).final = true) (hc : (cycleB cfg bound P s.now s.now1 s.exec).closed = false) :
+    ∀ l ∈ invokedSeqB cfg bound (cycleB cfg bound P s.now s.now1 s.exec).P' rest, ∀ m, (i, m) ∉ l := by
+  rw [cycleB_eq_cycle_taken] at hinv hc ⊢
+  rw [invokedSeqB_eq cfg bound hsub rest _ (noExtras_preserved cfg _ s.now s.now1 s.exec hsub hne)]
+  exact once_per_cycle cfg hsub _ hne s rest i n hinv hfin hc
+
+/-- REGRESSION of C03-N3 (repaired by /repo f7d6401). One id `h` registered for update AND deletion, a sibling `u2`
+    retrying keeps the update cycle open; the deletion arrives: `h` (deletion, reason-bound) is selected, its id
+    carries the FINISHED record of the update handler. The pass as it was (`cycle`: every record is taken over and
+    re-purposed) invokes nothing and closes the cycle at once — the mandatory deletion handler is never called, the
+    finalizer goes. The pass as it is (`cycleB`) invokes `h` with retry 0; with a success the cycle closes and every
+    record is purged; with a temporary failure the cycle stays open and `h`'s own record (purpose delete, one attempt)
+    replaces the namesake's. Replayed on the real operator: corpus/C03/N3_shared_id_update_delete.json. -/
+theorem namesake_not_inherited_regression :
+    let ok : Outcome := { final := true, delay := none, error := false, subrefs := [] }
+    let again : Outcome := { final := false, delay := some 64, error := true, subrefs := [] }
+    let recOf (fin : Bool) : Rec :=
+      { started := 192, delayed := none, purpose := some "update", retries := 1, success := fin, failure := false, subrefs := [] }
+    let P : Store := fun i => if i = "h" then some (recOf true) else if i = "u2" then some (recOf false) else none
+    let cfg : Cfg := { owned := ["h", "u2"], selected := ["h"], limits := fun _ => ⟨none, none⟩,
+                       reason := "delete", lifecycle := .asap }
+    -- before the repair
+    (cycle cfg P 320 320 (fun _ _ => ok)).invoked = [] ∧ (cycle cfg P 320 320 (fun _ _ => ok)).closed = true ∧
+    -- after it
+    taken cfg (fun _ => true) P "h" = none ∧ taken cfg (fun _ => true) P "u2" = P "u2" ∧
+    (cycleB cfg (fun _ => true) P 320 320 (fun _ _ => ok)).invoked = [("h", 0)] ∧
+    (cycleB cfg (fun _ => true) P 320 320 (fun _ _ => ok)).closed = true ∧
+    (cycleB cfg (fun _ => true) P 320 320 (fun _ _ => ok)).P' "h" = none ∧
+    (cycleB cfg (fun _ => true) P 320 320 (fun _ _ => ok)).P' "u2" = none ∧
+    (cycleB cfg (fun _ => true) P 320 320 (fun _ _ => again)).invoked = [("h", 0)] ∧
+    (cycleB cfg (fun _ => true) P 320 320 (fun _ _ => again)).closed = false ∧
+    ((cycleB cfg (fun _ => true) P 320 320 (fun _ _ => again)).P' "h").map (fun r => (r.purpose, r.retries, r.started))
+      = some (some "delete", 1, 320) ∧
+    (cycleB cfg (fun _ => true) P 320 320 (fun _ _ => again)).P' "u2" = none ∧
+    -- a resuming handler (no reason of its own) under the same id keeps inheriting, as before
+    (cycleB cfg (fun _ => false) P 320 320 (fun _ _ => ok)).invoked = [] := by
+  refine ⟨by decide, by decide, by decide, by decide, by decide, by decide, by decide, by decide, by decide,
+    by decide, by decide, by decide, by decide⟩
+
+/-- WITNESS of a defect f7d6401 brought in (finding C03-N7, open): the namesake's record is left out WITH its
+    `subrefs`. The update handler `h` finished with the sub-handlers `h/a`, `h/b` (their records are on the object,
+    referenced by `h`'s record only); the deletion handler `h` (same id) starts from scratch, runs no sub-handlers,
+    succeeds: the cycle closes and "every" record is purged — by the owned ids and the subrefs of the states the
+    pass KNOWS: the children's records stay on the object for as long as it exists (an object in deletion held by
+    somebody else's finalizer; the later FREE purge goes by owned ids and their records' subrefs as well). Before
+    f7d6401 the re-purposed record carried the subrefs along and the closing purge removed them (but `h` was never
+    called: C03-N3). Replayed on the real operator: corpus/C03/N7_namesake_children_records_leak.json. -/
+theorem namesake_subrefs_dropped_witness :
+    let ok : Outcome := { final := true, delay := none, error := false, subrefs := [] }
+    let recOf (fin : Bool) (subs : List Id) : Rec :=
+      { started := 192, delayed := none, purpose := some "update", retries := 1, success := fin, failure := false, subrefs := subs }
+    let P : Store := fun i => if i = "h" then some (recOf true ["h/a", "h/b"]) else if i = "g" then some (recOf false [])
+                     else if i = "h/a" ∨ i = "h/b" then some (recOf true []) else none
+    let cfg : Cfg := { owned := ["h", "g"], selected := ["h"], limits := fun _ => ⟨none, none⟩,
+                       reason := "delete", lifecycle := .asap }
+    (cycleB cfg (fun _ => true) P 320 320 (fun _ _ => ok)).invoked = [("h", 0)] ∧
+    (cycleB cfg (fun _ => true) P 320 320 (fun _ _ => ok)).closed = true ∧
+    (∀ i ∈ cfg.owned, (cycleB cfg (fun _ => true) P 320 320 (fun _ _ => ok)).P' i = none) ∧
+    (cycleB cfg (fun _ => true) P 320 320 (fun _ _ => ok)).P' "h/a" = P "h/a" ∧
+    (cycleB cfg (fun _ => true) P 320 320 (fun _ _ => ok)).P' "h/b" = P "h/b" ∧ (P "h/a").isSome = true ∧
+    -- the later purge of a FREE / no-op cause (by owned ids and the subrefs of THEIR records) does not reach them either
+    purge (cycleB cfg (fun _ => true) P 320 320 (fun _ _ => ok)).P'
+      (fromStorage (cycleB cfg (fun _ => true) P 320 320 (fun _ _ => ok)).P' cfg.owned) cfg.owned cfg.owned "h/a" = P "h/a" ∧
+    -- before f7d6401: purged with the rest
+    (cycle cfg P 320 320 (fun _ _ => ok)).P' "h/a" = none ∧ (cycle cfg P 320 320 (fun _ _ => ok)).P' "h/b" = none := by
+  refine ⟨by decide, by decide, by decide, by decide, by decide, by decide, by decide, by decide, by decide⟩
+
+/-! #### the pass composed with its sub-passes, as of f7d6401 -/
+
+/-- `cycle2B` is `cycle2` over the records taken over, when no registered child is a selected top-level handler
+    (children's ids are `parent/child`). -/
+theorem composed_pass_is_cycle2_over_taken (cfg : Cfg) (bound : Id → Bool) (sub : SubReg) (P : Store) (now : Tick)
+    (execLeaf : Id → Nat → Outcome) (hr : handlerReasons.contains cfg.reason = true)
+    (hdisj : ∀ p, ∀ i ∈ sub.children p, i ∉ cfg.selected) :
+    cycle2B cfg bound sub P now execLeaf = cycle2 cfg sub (taken cfg bound P) now execLeaf :=
+  cycle2B_eq_cycle2_taken cfg bound sub P now execLeaf hr hdisj
+
+/-- A registered child whose success or permanent failure the BODY carries is not invoked by the composed whole pass —
+    WHATEVER purpose that record has: the sub-pass leaves nothing out (sub-handlers have no reason of their own), so
+    the children of a handler that starts from scratch still inherit the records its namesake's children left under
+    the same ids (the residue of C03-N3 one level down: finding C03-N8, `namesake_children_inherit_witness`). -/
+theorem cycle2B_child_no_rerun (cfg : Cfg) (bound : Id → Bool) (sub : SubReg) (P : Store) (now : Tick)
+    (execLeaf : Id → Nat → Outcome) (hr : handlerReasons.contains cfg.reason = true)
+    (hdisj : ∀ p, ∀ i ∈ sub.children p, i ∉ cfg.selected)
+    (p i : Id) (hi : i ∈ sub.children p) (n : Nat) (r : Rec) (hP : P i = some r) (hfin : r.finished = true) :
+    (i, n) ∉ (cycle2B cfg bound sub P now execLeaf).subInvoked := by
+  rw [cycle2B_eq_cycle2_taken cfg bound sub P now execLeaf hr hdisj]
+  exact cycle2_child_no_rerun cfg sub _ now execLeaf i n r (by rw [taken_unselected (hdisj p i hi)]; exact hP) hfin
+
+/-- When the composed whole pass closes the cycle, the records of all registered children of every parent invoked in
+    it are gone. (Not so the records of children that only the namesake had: `namesake_subrefs_dropped_witness`.) -/
+theorem cycle2B_closed_purges_children (cfg : Cfg) (bound : Id → Bool) (sub : SubReg) (P : Store) (now : Tick)
+    (execLeaf : Id → Nat → Outcome) (hr : handlerReasons.contains cfg.reason = true)
+    (hdisj : ∀ p, ∀ i ∈ sub.children p, i ∉ cfg.selected)
+    (hc : (cycle2B cfg bound sub P now execLeaf).closed = true)
+    (p : Id) (n : Nat) (hinv : (p, n) ∈ (cycle2B cfg bound sub P now execLeaf).invoked)
+    (i : Id) (hi : i ∈ sub.children p) :
+    (cycle2B cfg bound sub P now execLeaf).P' i = none := by
+  rw [cycle2B_eq_cycle2_taken cfg bound sub P now execLeaf hr hdisj] at hc hinv ⊢
+  exact cycle2_closed_purges_children cfg sub _ now execLeaf hc p n hinv i hi
+
+/-- WITNESS (finding C03-N8, open; the part of C03-N3 that f7d6401 does not cover): one function `h` registered for
+    update and deletion runs the sub-handlers `h/a`, `h/b` in both. The update series is open (`h/a` succeeded, `h/b`
+    is retrying, so `h` is unfinished) when the deletion arrives. The deletion handler `h` starts from scratch (retry
+    0) — but its sub-pass reads the children's records from the body as they are: `h/a` is "finished" (for the
+    update) and is NOT called for the deletion, `h/b` continues the update's retry series (retry 1); `h` finishes,
+    the cycle closes, the finalizer goes: the deletion sub-handler `h/a` never ran.
+    Replayed on the real operator: corpus/C03/N8_namesake_children_inherit.json. -/
+theorem namesake_children_inherit_witness :
+    let ok : Outcome := { final := true, delay := none, error := false, subrefs := [] }
+    let recOf (fin : Bool) (subs : List Id) : Rec :=
+      { started := 192, delayed := none, purpose := some "update", retries := 1, success := fin, failure := false, subrefs := subs }
+    let P : Store := fun i => if i = "h" then some (recOf false ["h/a", "h/b"]) else if i = "h/a" then some (recOf true [])
+                     else if i = "h/b" then some (recOf false []) else none
+    let sub : SubReg := { children := fun p => if p = "h" then ["h/a", "h/b"] else [], limits := fun _ => ⟨none, none⟩ }
+    let cfg : Cfg := { owned := ["h"], selected := ["h"], limits := fun _ => ⟨none, none⟩,
+                       reason := "delete", lifecycle := .allAtOnce }
+    (cycle2B cfg (fun _ => true) sub P 320 (fun _ _ => ok)).invoked = [("h", 0)] ∧
+    (cycle2B cfg (fun _ => true) sub P 320 (fun _ _ => ok)).subInvoked = [("h/b", 1)] ∧
+    (cycle2B cfg (fun _ => true) sub P 320 (fun _ _ => ok)).closed = true := by
+  refine ⟨by decide, by decide, by decide⟩
 
 end Kopf.C02
